@@ -70,11 +70,11 @@ def main(ctx):
                 f["libaccepts"] = {"gz": "gzip", "bz2": "bzip2", "xz": "xz"}[f["codec"]] + "-library-accepts"
                 f["errtext"] = "reference decoder: " + str(ex)[:60]
         magic = {"gz": 2, "bz2": 3, "zst": 4, "xz": 6}[f["codec"]]
-        if f["fault"] == "trunc" and f["t"] < magic:
-            skipped["shorter-than-magic-number"] = skipped.get("shorter-than-magic-number", 0) + 1
-            continue
-        if f["fault"] == "flip" and f["t"] < magic * 8:
-            skipped["flip-inside-magic-number"] = skipped.get("flip-inside-magic-number", 0) + 1
+        # damage inside the magic number: the file cannot be recognised as compressed any more, what is left is not a
+        # sequence file either: the commands that guess the format must refuse it (only they are asked)
+        inmagic = (f["fault"] == "trunc" and f["t"] < magic) or (f["fault"] == "flip" and f["t"] < magic * 8)
+        if inmagic and (kind == "none" or f["fmt"] not in ("fasta", "fastq")):
+            skipped["inside-magic-number-not-asked"] = skipped.get("inside-magic-number-not-asked", 0) + 1
             continue
         if kind == "none" and f["fault"] != "none":
             k = "undetectable-by-codec(same=%d)" % f["same"]
@@ -82,13 +82,15 @@ def main(ctx):
             continue
         modes = [("obiconvert-file", [conv, "--max-cpu", "2", f["file"]], None),
                  ("obicount-file", [count, f["file"]], None)]
-        if f["codec"] == "gz" and f["fmt"] in ("fasta", "fastq"):
+        if inmagic:
+            pass
+        elif f["codec"] == "gz" and f["fmt"] in ("fasta", "fastq"):
             modes.append(("obiconvert-stdin", [conv, "--max-cpu", "2"], f["file"]))
         # the format given on the command line: no sniffing, the chunk reader meets the fault in its first read
-        if f["fmt"] in ("fasta", "fastq", "genbank", "embl") and f["size"] == "small":
+        if f["fmt"] in ("fasta", "fastq", "genbank", "embl") and f["size"] == "small" and not inmagic:
             modes.append(("obiconvert-forced", [conv, "--max-cpu", "2", "--" + f["fmt"], f["file"]], None))
         # several input files: the faulted one next to an intact file of the same format (multi-file reader path)
-        if kind != "none" and (len(evs) % 5 == 0):
+        if kind != "none" and (len(evs) % 5 == 0) and not inmagic:
             mate = intact.get((f["fmt"], f["size"]))
             if mate:
                 modes.append(("obiconvert-2files-first", [conv, "--max-cpu", "2", f["file"], mate], None))
